@@ -179,9 +179,8 @@ inline constexpr void Conversion<Unit::Temperature, Unit::Temperature::Fahrenhei
 }
 
 template <typename NumericType>
-inline const std::
-    map<Unit::Temperature, std::function<void(NumericType* values, const std::size_t size)>>
-        MapOfConversionsFromStandard<Unit::Temperature, NumericType>{
+inline const ConversionTable<Unit::Temperature, NumericType>
+    MapOfConversionsFromStandard<Unit::Temperature, NumericType>{
           {Unit::Temperature::Kelvin,
            Conversions<Unit::Temperature, Unit::Temperature::Kelvin>::FromStandard<NumericType> },
           {Unit::Temperature::Celsius,
@@ -194,9 +193,8 @@ inline const std::
 };
 
 template <typename NumericType>
-inline const std::
-    map<Unit::Temperature, std::function<void(NumericType* const values, const std::size_t size)>>
-        MapOfConversionsToStandard<Unit::Temperature, NumericType>{
+inline const ConversionTable<Unit::Temperature, NumericType>
+    MapOfConversionsToStandard<Unit::Temperature, NumericType>{
           {Unit::Temperature::Kelvin,
            Conversions<Unit::Temperature, Unit::Temperature::Kelvin>::ToStandard<NumericType>    },
           {Unit::Temperature::Celsius,
